@@ -3,8 +3,7 @@
     resolution against Interface.classes (split at the first ':', element.nsmap, the
     '{ns}name' class key, _get_xsi_target), base_from_element / unicode_from_element,
     array_from_element, complex_from_element (member lookup by local name, the loop over the
-    attributes of every child, the loop over the element's own attributes, the frequency
-    check of validator='soft').  Definitions only.
+    element's own attributes, the frequency check of validator='soft').  Definitions only.
 
     Vocabulary (type universes, native values) is Wire/Universe.v; helpers that are plain
     transcriptions (attribute lookup, instance dictionaries) come from Wire/Xml.v.  The tree
@@ -185,40 +184,13 @@ Section Codec4.
         end
     end.
 
-  (** the loop over c.attrib of a child that matched a member (complex_from_element, lines
-      1007-1027): an attribute of the *child* named like a member of the *parent* sets that
-      member; members that are not XmlAttribute have no [.type] *)
-  Fixpoint kid_atts (fields : list field) (atts : list attr) (st : pystate) : out pystate :=
-    match atts with
-    | [] => Ok st
-    | (ans, an, av) :: r =>
-        let key := clark ans an in
-        match find_field key fields with
-        | None => kid_atts fields r st
-        | Some f =>
-            match f_kind f with
-            | KElem => Crash AttributeError                          (* submember.type *)
-            | KAttr =>
-                match f_ty f with
-                | TPrim p =>
-                    do v <- lc_rd L p av;
-                    if is_multi f then
-                      do l <- as_list (getattr st key);
-                      kid_atts fields r (setattr st key (VList (l ++ [VLeaf v])))
-                    else kid_atts fields r (setattr st key (VLeaf v))
-                | _ => Crash TypeError
-                end
-            end
-        end
-    end.
-
   (** the loop over the children *)
   Fixpoint kids4 (decf : field -> xn -> out val) (fields : list field)
            (kids : list xn) (st : pystate) (freq : list text) : out (pystate * list text) :=
     match kids with
     | [] => Ok (st, freq)
-    | XO :: r => kids4 decf fields r st freq
-    | (XE _ name _ catts _ _ as c) :: r =>
+    | XO :: r => kids4 decf fields r st freq                              (* comments, processing instructions *)
+    | (XE _ name _ _ _ _ as c) :: r =>
         let freq' := name :: freq in
         match find_field name fields with
         | None => kids4 decf fields r st freq'
@@ -227,8 +199,7 @@ Section Codec4.
             do st1 <- (if is_multi f then
                          do l <- as_list (getattr st name); Ok (setattr st name (VList (l ++ [v])))
                        else Ok (setattr st name v));
-            do st2 <- kid_atts fields catts st1;
-            kids4 decf fields r st2 freq'
+            kids4 decf fields r st1 freq'                                 (* the attributes of a child are the child's own business *)
         end
     end.
 
